@@ -297,6 +297,10 @@ func runXtplCase(r *Rng, out *outFiles, work string, idx int) {
 			}
 			sb.WriteString(lineText + "\n")
 		}
+		if r.Chance(30) {
+			// raw text (default raw-text elements) is not markup: a directive-looking call inside it is not extracted
+			sb.WriteString(`<script>if (a<b ` + ap + `text="${__('inscript')}") {}</script>` + "\n")
+		}
 		files = append(files, [2]string{name, sb.String()})
 		must(os.WriteFile(filepath.Join(dir, name), []byte(sb.String()), 0o644))
 	}
@@ -309,6 +313,9 @@ func runXtplCase(r *Rng, out *outFiles, work string, idx int) {
 	}
 	if custom {
 		args = append(args, "-keywords", kwSpec)
+	}
+	if r.Chance(20) { // explicitly empty list flags mean "the defaults"
+		args = append(args, "-text_tags", "", "-void_elements", " ")
 	}
 	if ap != ":" {
 		args = append(args, "-attr_prefix", ap)
